@@ -29,10 +29,38 @@ def known_functions() -> set[str]:
         return set(json.load(fh)['functions'])
 
 
+_NESTED: dict[int, list[ast.stmt]] = {}
+
+
+def _terminal(block: list[ast.stmt]) -> bool:
+    return bool(block) and isinstance(block[-1], (ast.Return, ast.Raise, ast.Continue, ast.Break))
+
+
+def _renest(block: list[ast.stmt]) -> list[ast.stmt]:
+    """`if c: ...return;  REST` -> `if c: ...return else: REST` (the inverse of N7), so that every return of a helper
+    written with guard clauses is in tail position."""
+    out: list[ast.stmt] = []
+    for i, st in enumerate(block):
+        if isinstance(st, ast.If):
+            st.body = _renest(st.body)
+            st.orelse = _renest(st.orelse)
+            if not st.orelse and _terminal(st.body) and i + 1 < len(block) and _has_return(st):
+                st.orelse = _renest(block[i + 1:])
+                out.append(st)
+                return out
+        out.append(st)
+    return out
+
+
 def _body(fn: ast.AST) -> list[ast.stmt]:
-    b = list(fn.body)  # type: ignore[attr-defined]
+    got = _NESTED.get(id(fn))
+    if got is not None:
+        return got
+    b = [copy.deepcopy(st) for st in fn.body]  # type: ignore[attr-defined]
     if b and isinstance(b[0], ast.Expr) and isinstance(b[0].value, ast.Constant) and isinstance(b[0].value.value, str):
         b = b[1:]
+    b = _renest(b)
+    _NESTED[id(fn)] = b
     return b
 
 
@@ -178,6 +206,7 @@ def _bind(call: ast.Call, fn: ast.AST, is_method: bool, recv: ast.expr | None) -
 def expand(prog: 'object') -> list[str]:
     """Expand calls to functions outside the known inventory, in place.  Returns a log."""
     known = known_functions()
+    _NESTED.clear()
     funcs = prog.funcs  # type: ignore[attr-defined]
     new = {q: f for q, f in funcs.items() if q not in known and f.kind in ('function', 'method', 'static') and f.parent is None}
     if not new:
